@@ -87,6 +87,32 @@ Proof.
   repeat split; try (destruct validate, include_crds; reflexivity).
 Qed.
 
+(* ---- the command layer: validateDryRunOptionFlag and the flag plumbing of install / upgrade ---- *)
+(* the values the validator lets through that are neither a documented "no" nor a spelling the
+   action treats as dry: must be empty (the list IS the witness when it is not) *)
+Definition cmd_validator_witnesses : list string :=
+  filter (fun s => negb (mem s ["none"; "false"] || is_dry_run false s)) cmd_validator_accepts.
+
+Lemma cmd_validator_fact :
+  dry_table_problems = [] /\
+  cmd_validator_witnesses = [] /\
+  cmd_validator_exact = true /\
+  (forall s, dry_opt_allowed s = mem s cmd_validator_accepts) /\
+  (* the bare flag of install / upgrade stands for a dry spelling, the one the model uses *)
+  cmd_bare_dry_run = [("install", cmd_string_opt (Some None)); ("upgrade", cmd_string_opt (Some None))] /\
+  forallb (fun kv => is_dry_run false (snd kv)) cmd_bare_dry_run = true /\
+  (* an empty value becomes what the model says (template: "true") *)
+  cmd_empty_dry_run = [("install", cmd_default_opt ""); ("upgrade", cmd_default_opt ""); ("template", "true")] /\
+  (* every function of install.go / upgrade.go that runs the action validates first *)
+  cmd_validated_before_run = [("install.runInstall", true); ("upgrade.newUpgradeCmd", true)].
+Proof.
+  split; [reflexivity|]. split; [vm_compute; reflexivity|]. split; [reflexivity|].
+  split.
+  { intros s. unfold dry_opt_allowed, mem, cmd_validator_accepts. cbn [existsb].
+    repeat match goal with |- context [String.eqb s ?x] => destruct (String.eqb s x) end; reflexivity. }
+  repeat split; vm_compute; reflexivity.
+Qed.
+
 (* ---- the checkers reject what they should ---- *)
 (* a flow that creates the release before the bail-out *)
 Definition bad_flow : dtable :=
